@@ -182,6 +182,31 @@ pub fn run_procs(case: &Case, pseed: u64) -> Outcome {
             return Err(vio("race-outcome", format!("two processes racing for one directory reported {lb:?} and {lc:?}; expected exactly one OPENED and one AlreadyOpened")));
         }
         *out.site_counts.entry("process-races".into()).or_insert(0) += 1;
+        // 6. ownership ends with the handle, in either sync mode: an owner in Async mode (which runs a
+        // background fdatasync thread) writes a few blobs and is dropped; the very next open - no
+        // pause, no retry - must succeed (seeded change C11-e: the thread kept a dup of the lock)
+        for round in 0..3 {
+            let async_mode = round != 1;
+            let mut acfg = cfg.clone();
+            acfg.async_mode = async_mode;
+            let owner = Cas::<String>::open(&db, to_config(&acfg)).map_err(|e| vio("reopen-after-drop-failed", format!("round {round}: opening a directory nobody holds failed: {e}")))?;
+            for j in 0..4 {
+                let mut tx = owner.put(format!("bulk-{round}-{j}")).map_err(|e| vio("harness", format!("put failed: {e}")))?;
+                tx.write(&vec![j as u8; 200_000]).map_err(|e| vio("harness", format!("write failed: {e}")))?;
+                tx.finish().map_err(|e| vio("harness", format!("finish failed: {e}")))?;
+            }
+            match Cas::<String>::open(&db, to_config(&cfg)) {
+                Err(LibError::AlreadyOpened) => {}
+                Ok(_) => return Err(vio("two-live-handles", "a second handle was opened in the same process while the first is alive".into())),
+                Err(e) => return Err(vio("wrong-error", format!("losing open failed with {e} instead of AlreadyOpened"))),
+            }
+            drop(owner);
+            match Cas::<String>::open(&db, to_config(&cfg)) {
+                Ok(c) => drop(c),
+                Err(e) => return Err(vio("reopen-after-drop-failed", format!("round {round}: the owner (async_mode={async_mode}) was dropped, yet the next open failed: {e}"))),
+            }
+            *out.site_counts.entry(if async_mode { "drop-then-open:async-owner".into() } else { "drop-then-open:sync-owner".into() }).or_insert(0) += 1;
+        }
         Ok(())
     })();
     remove_dir(&base);
